@@ -245,6 +245,11 @@ def run(ctx):
         cls, site, src, frame = cases[ix]
         return ix, run_session(ctx, d, ix, [src] + [":resume"] * RESUMES)
     results = dict(pmap(job, list(range(len(cases)))))
+    # a loaded machine can push a 30 ms session over the timeout: re-run those alone, generously
+    slow = [ix for ix, r in results.items() if r[0] == -9999]
+    for ix in slow:
+        results[ix] = run_session(ctx, d, ix, [cases[ix][2]] + [":resume"] * RESUMES, timeout=180)
+    ctx.cov["sessions_rerun_after_timeout"] = len(slow)
 
     hist = {"first_is_error": 0, "first_not_error": 0, "by_kind": {}}
     crashed_first = []
